@@ -7,8 +7,11 @@ import Driver.BTree
 import Driver.BTreeFault
 import Driver.Arr
 import Driver.ArrFault
+import Driver.SegFault
 import Driver.Pool
 import Driver.PoolAlloc
+import Driver.PoolU32
+import Driver.PoolWorld
 import Driver.Columns
 import Driver.HashTable
 import Driver.Sort
@@ -17,6 +20,7 @@ import Driver.Val
 import Driver.Table
 import Driver.MMap
 import Driver.StdWrap
+import Driver.StdHist
 import Driver.Ver
 import Driver.Ledger
 /-!
@@ -28,6 +32,7 @@ open Driver
 def engines : List (String × Engine) := [
   ("ledger", Driver.Ledger.engine),
   ("stdwrap", Driver.StdWrap.engine),
+  ("stdhist", Driver.StdHist.engine),
   ("ver", Driver.Ver.engine),
   ("probe", Driver.Probe.engine),
   ("obj", Driver.Obj.engine),
@@ -37,8 +42,11 @@ def engines : List (String × Engine) := [
   ("btreefault", Driver.BTreeFault.engine),
   ("arr", Driver.Arr.engine),
   ("arrfault", Driver.ArrFault.engine),
+  ("segfault", Driver.SegFault.engine),
   ("pool", Driver.Pool.engine),
   ("poolalloc", Driver.PoolAlloc.engine),
+  ("poolu32", Driver.PoolU32.engine),
+  ("poolworld", Driver.PoolWorld.engine),
   ("columns", Driver.Columns.engine),
   ("hashtable", Driver.HashTable.engine),
   ("sort", Driver.Sort.engine),
